@@ -103,7 +103,6 @@ Push(kind, stop) == /\ InCtx /\ alive[Ev.o]
                                                  base |-> Len(cbOf), extra |-> {}, kind |-> kind, stop |-> stop, seen |-> 0, thrown |-> FALSE])
                     /\ UNCHANGED <<lists, alive, cbOf, until, pins>>
 EvInvokeBegin == Is("vb") /\ Push("v", 0)
-EvForEachBegin == Is("fb") /\ Push("f", Ev.b)
 
 \* the frame on top calls callback identity c: which node may that be?
 Callee(f, c) ==
@@ -136,6 +135,18 @@ EvForEachEnd == /\ Is("fe") /\ frames # <<>> /\ Top.kind = "f"
                 /\ IF Top.stop # 0 /\ Top.seen = Top.stop THEN Ev.r = 0
                    ELSE Live(Top.l, Top.todo) = <<>> /\ Ev.r = 1
                 /\ Pop /\ UNCHANGED <<lists, alive, cbOf, until>>
+
+\* forEach whose function is user code: same visiting rules as an invocation; the function sees handle Ev.a and callback identity Ev.b
+EvEnumBegin == Is("fub") /\ Push("u", 0)
+EvEnumVisit == /\ Is("vu") /\ frames # <<>> /\ Top.cur = 0 /\ Top.kind = "u" /\ ~Top.thrown
+               /\ Ev.a \in Callee(Top, Ev.b)
+               /\ frames' = [frames EXCEPT ![Len(frames)] = [Advance(Top, Ev.a) EXCEPT !.cur = Ev.a]]
+               /\ LvOk(lists, alive, pins) /\ UNCHANGED <<lists, alive, cbOf, until, pins>>
+EvEnumRet == /\ Is("vr") /\ frames # <<>> /\ Top.kind = "u" /\ Top.cur = Ev.a /\ Ev.a # 0
+             /\ frames' = [frames EXCEPT ![Len(frames)].cur = 0] /\ UNCHANGED <<lists, alive, cbOf, until, pins>>
+EvEnumEnd == /\ Is("fue") /\ frames # <<>> /\ Top.cur = 0 /\ Top.kind = "u" /\ Live(Top.l, Top.todo) = <<>>
+             /\ Pop /\ LvOk(lists, alive, pins') /\ UNCHANGED <<lists, alive, cbOf, until>>
+EvForEachBegin == Is("fb") /\ Push("f", Ev.b)
 
 \* ---- exceptions (C09)
 \* a callback throws: the exception reaches the caller of the invocation, no further callback of that invocation runs,
@@ -185,7 +196,7 @@ EvReset == /\ Is("rs") /\ frames = <<>> /\ \A i \in Lists : ~alive[i] /\ Ev.lv =
            /\ lists' = [i \in Lists |-> <<>>] /\ alive' = [i \in Lists |-> i = 1] /\ cbOf' = <<>>
            /\ until' = [i \in Lists |-> Big] /\ frames' = <<>> /\ pins' = 0
 
-Next == \/ EvThrow \/ EvInvokeExit \/ EvFaulted
+Next == \/ EvThrow \/ EvInvokeExit \/ EvFaulted \/ EvEnumBegin \/ EvEnumVisit \/ EvEnumRet \/ EvEnumEnd
         \/ EvHasListener \/ EvHasAny \/ EvRemoveListener
         \/ EvSetCtr \/ EvJump \/ EvAppend \/ EvPrepend \/ EvInsert \/ EvRemove \/ EvOwns \/ EvEmpty
         \/ EvInvokeBegin \/ EvEnter \/ EvRet \/ EvInvokeEnd \/ EvForEachBegin \/ EvVisit \/ EvForEachEnd
